@@ -91,7 +91,7 @@ def main(config, kconfig, sdkconfig_rename, env, env_file, version):
         env_vars = json.load(env_file)
         os.environ.update(env_vars)
 
-    run_server(kconfig, config, sdkconfig_rename)
+    run_server(kconfig, config, sdkconfig_rename, default_version=version)
 
 
 def run_server(kconfig, sdkconfig, sdkconfig_rename, default_version=MAX_PROTOCOL_VERSION):
